@@ -33,9 +33,9 @@ def r1_owner(prog, rep: Report, fam: Family, include_mixins: bool):
         rep.error(f"C18.R1: only {len(stats['handle_sites'])} handle access sites reached (floor 5)")
     bad: Dict[tuple, dict] = {}
     for c, f, fd in results:
-        if fd["what"] != "owner":
+        if fd["what"] not in ("owner", "lost"):
             continue
-        b = bad.setdefault((f, fd["site"], fd["op"]), {"classes": [], **fd})
+        b = bad.setdefault((f, fd["site"], fd["op"] + (":position-lost-by-reopen" if fd["what"] == "lost" else "")), {"classes": [], **fd})
         b["classes"].append(c.short)
     entries: Dict[Func, Set[str]] = {}
     for c in fam.line_classes + [fam.map_file]:
@@ -48,8 +48,10 @@ def r1_owner(prog, rep: Report, fam: Family, include_mixins: bool):
             rep.ok("C18.R1", f, "owner", f"every handle access owned ({len(classes)} concrete classes)")
         for (ff, site, op), b in mine:
             rep.viol("C18.R1", (b["file"], f.short, b["line"]), f"owner:{site}:{op}",
-                     f"{op} at {b['file']}:{b['line']} ({site}) reached without the re-open helper via "
-                     f"{' -> '.join(b['chain'])}; classes: {', '.join(sorted(set(b['classes'])))}",
+                     (f"{op} at {b['file']}:{b['line']} ({site}) follows a re-open in a new process without a seek (the fresh handle "
+                      f"stands at offset 0) via " if op.endswith("position-lost-by-reopen") else
+                      f"{op} at {b['file']}:{b['line']} ({site}) reached without the re-open helper via ")
+                     + f"{' -> '.join(b['chain'])}; classes: {', '.join(sorted(set(b['classes'])))}",
                      witness={"chain": b["chain"], "classes": sorted(set(b["classes"]))},
                      scenario="open in the parent, fork two children: both use the inherited open file description, a "
                               "seek of one child falls between the seek and the readline of the other, which then "
@@ -148,9 +150,71 @@ class _HelperCompares(Client):
                     return ((cmpd, False),), ((cmpd, True),)
                 if isinstance(op, ast.Is):
                     return ((cmpd, True),), ((cmpd, False),)
-            if any(is_call_to(self.P, ctx.func, x, "os.getpid") for x in (l, r)):
+            pid_locals = {a_.targets[0].id for a_ in walk_own(ctx.func.node) if isinstance(a_, ast.Assign)
+                          and isinstance(a_.targets[0], ast.Name) and is_call_to(self.P, ctx.func, a_.value, "os.getpid")}
+            if any(is_call_to(self.P, ctx.func, x, "os.getpid") or (isinstance(x, ast.Name) and x.id in pid_locals) for x in (l, r)):
                 return ((True, notopen),), ((True, notopen),)
         return (state,), (state,)
+
+
+class _HelperOrder(Client):
+    """state = (pid differs?: None|True|False, old handle released, new handle obtained, pid recorded)"""
+
+    def __init__(self, prog, pid, handles, helper):
+        self.P, self.pid, self.handles, self.helper = prog, pid, handles, helper
+        self.pid_before_handle = False
+
+    def should_inline(self, func, call, ctx):
+        return func.name in ("open", "close")
+
+    def _is_pid_value(self, e, ctx) -> bool:
+        if e is None:
+            return False
+        if is_call_to(self.P, ctx.func, e, "os.getpid"):
+            return True
+        if isinstance(e, ast.Name):
+            for a_ in walk_own(ctx.func.node):
+                if isinstance(a_, ast.Assign) and isinstance(a_.targets[0], ast.Name) and a_.targets[0].id == e.id \
+                        and is_call_to(self.P, ctx.func, a_.value, "os.getpid"):
+                    return True
+        return False
+
+    def refine(self, test, state, ctx):
+        differs, rel, new, rec = state
+        if ctx.func is self.helper and isinstance(test, ast.Compare) and len(test.ops) == 1:
+            l, r, op = test.left, test.comparators[0], test.ops[0]
+            if (self._is_pid_value(l, ctx) and dotted(r) == (ctx.func.self_name, self.pid)) or \
+                    (self._is_pid_value(r, ctx) and dotted(l) == (ctx.func.self_name, self.pid)):
+                t, f_ = (True, rel, new, rec), (False, rel, new, rec)
+                if isinstance(op, (ast.NotEq, ast.IsNot)):
+                    return (t,), (f_,)
+                if isinstance(op, (ast.Eq, ast.Is)):
+                    return (f_,), (t,)
+        # inside the inlined open(): `if self.file is None` follows what close() did
+        if ctx.func is not self.helper and isinstance(test, ast.Compare) and len(test.ops) == 1 and const_value(test.comparators[0], 0) is None:
+            d = dotted(test.left)
+            if d and len(d) == 2 and d[1] in self.handles:
+                is_none = rel
+                if isinstance(test.ops[0], ast.Is):
+                    return ((state,), ()) if is_none else ((), (state,))
+                if isinstance(test.ops[0], ast.IsNot):
+                    return ((), (state,)) if is_none else ((state,), ())
+        return (state,), (state,)
+
+    def event(self, kind, node, state, ctx):
+        differs, rel, new, rec = state
+        if kind == "store" and isinstance(node, ast.Attribute) and ctx.scope.is_self(node.value):
+            av = assigned_value(node)
+            if node.attr in self.handles:
+                if av is not None and const_value(av, 0) is None:
+                    return ((differs, True, new, rec),)
+                if isinstance(av, ast.Call):
+                    return ((differs, True if ctx.func is self.helper else rel, True, rec),)
+            if node.attr == self.pid and self._is_pid_value(av, ctx):
+                if differs and not new:
+                    self.pid_before_handle = True
+                return ((differs, rel, new, True),)
+        return (state,)
 
 
 def _check_helper(prog, rep: Report, f: Func, pid: str, c: Cls):
@@ -165,51 +229,25 @@ def _check_helper(prog, rep: Report, f: Func, pid: str, c: Cls):
               scenario="the parent reads a line, then forks: the children inherit the 'already verified' state, never compare "
                        "pids and keep using the parent's handle")
     sn = f.self_name
-    verdict = None
-    detail = ""
-    for n in walk_own(f.node):
-        if not isinstance(n, ast.If):
-            continue
-        cmp_ = None
-        for sub in ast.walk(n.test):
-            if isinstance(sub, ast.Compare) and len(sub.ops) == 1:
-                parts = [sub.left, sub.comparators[0]]
-                if any(is_call_to(prog, f, x, "os.getpid") for x in parts) and any(dotted(x) == (sn, pid) for x in parts):
-                    cmp_ = sub
-        if cmp_ is None:
-            continue
-        op = cmp_.ops[0]
-        if isinstance(op, (ast.NotEq, ast.IsNot)):
-            branch = n.body
-        elif isinstance(op, (ast.Eq, ast.Is)):
-            branch = n.orelse
+    fam_handles = {"file", "mm"}
+    client = _HelperOrder(prog, pid, fam_handles, f)
+    it2 = Interp(prog, client)
+    ex2 = it2.run(f, {(None, False, False, False)}, c)
+    finals = ex2.normal | ex2.ret
+    differs = [s_ for s_ in finals if s_[0] is True]
+    verdict, detail = None, ""
+    if differs:
+        if client.pid_before_handle:
+            verdict, detail = False, ("the new owner pid is recorded before the new handle exists: if the open fails the object claims to "
+                                      "be owned by this process while it still holds the inherited handle")
+        elif not all(s_[2] for s_ in differs):
+            verdict, detail = False, "the branch taken when the pid differs does not obtain a new handle"
+        elif not all(s_[1] for s_ in differs):
+            verdict, detail = False, "re-opens without closing/dropping the inherited handle first: open() is a no-op while a handle is set"
+        elif not all(s_[3] for s_ in differs):
+            verdict, detail = False, "the branch taken when the pid differs does not record the new owner pid"
         else:
-            verdict, detail = False, f"pid compared with {type(op).__name__}"
-            break
-        # the comparison must not be weakened by an `or`-free conjunction only (x is not None and pid != x is fine)
-        neg = False
-        p = getattr(cmp_, "_parent", None)
-        while p is not None and p is not n:
-            if isinstance(p, ast.UnaryOp) and isinstance(p.op, ast.Not):
-                neg = not neg
-            if isinstance(p, ast.BoolOp) and isinstance(p.op, ast.Or):
-                verdict, detail = None, "pid comparison under `or`"
-            p = getattr(p, "_parent", None)
-        if neg:
-            branch = n.orelse if branch is n.body else n.body
-        order = []
-        for st in branch:
-            for call in ast.walk(st):
-                if isinstance(call, ast.Call) and isinstance(call.func, ast.Attribute) and isinstance(call.func.value, ast.Name) \
-                        and call.func.value.id == sn and call.func.attr in ("close", "open"):
-                    order.append(call.func.attr)
-        if order[:2] == ["close", "open"] or order == ["open"] and False:
-            verdict, detail = True, "pid differs -> close(); open()"
-        elif "open" in order and "close" not in order:
-            verdict, detail = False, "re-opens without closing: open() is a no-op while the inherited handle is set"
-        else:
-            verdict, detail = False, f"branch taken when the pid differs does not close+open (calls: {order})"
-        break
+            verdict, detail = True, "pid differs -> inherited handle released, new handle opened, then the owner pid recorded"
     if verdict is None:
         rep.unrec("C18.R2", f, "helper", "no `if` comparing the pid field with os.getpid() found " + detail)
     else:
